@@ -4,6 +4,7 @@
 package schema
 
 import "github.com/ory/keto/internal/namespace/ast"
+import "github.com/ory/keto/internal/x/verifhook"
 
 type (
 	namespaceQuery []namespace
@@ -104,6 +105,7 @@ func checkAllRelationsTypesHaveRelation(current *namespace, relationType item, r
 }
 
 func recursiveCheckAllRelationsTypesHaveRelation(p *parser, item item, namespace string, relationType string, relation string, depth int) {
+	verifhook.Point("tc.rec")
 	if depth < 0 {
 		p.addErr(item, "could not typecheck deeply nested SubjectSet further")
 		return
